@@ -33,6 +33,12 @@ func open(r *h.Run, c h.Conf) *session {
 		return nil
 	}
 	if o.Err != nil {
+		if r.W.InjectedTotal() >= 2*time.Second {
+			// a stall of seconds injected into the set-up itself (the broker's
+			// 5 s windows apply to a Dispense too): nothing to judge in this run
+			r.W.Probe("setup.abandoned-after-injected-stall")
+			return nil
+		}
 		r.Violate("setup", "start failed "+s.name, o.Err.Error()+"\n"+r.HLog.String())
 		return nil
 	}
@@ -41,6 +47,12 @@ func open(r *h.Run, c h.Conf) *session {
 		return nil
 	}
 	if o.Err != nil {
+		if r.W.InjectedTotal() >= 2*time.Second {
+			// a stall of seconds injected into the set-up itself (the broker's
+			// 5 s windows apply to a Dispense too): nothing to judge in this run
+			r.W.Probe("setup.abandoned-after-injected-stall")
+			return nil
+		}
 		r.Violate("setup", "client failed "+s.name, o.Err.Error()+"\n"+r.HLog.String())
 		return nil
 	}
@@ -50,6 +62,12 @@ func open(r *h.Run, c h.Conf) *session {
 		return nil
 	}
 	if o.Err != nil {
+		if r.W.InjectedTotal() >= 2*time.Second {
+			// a stall of seconds injected into the set-up itself (the broker's
+			// 5 s windows apply to a Dispense too): nothing to judge in this run
+			r.W.Probe("setup.abandoned-after-injected-stall")
+			return nil
+		}
 		r.Violate("setup", "dispense failed "+s.name, o.Err.Error()+"\n"+r.HLog.String())
 		return nil
 	}
@@ -69,6 +87,7 @@ type pair struct {
 	tDial     time.Duration
 	size      int
 	late      int // >0: the dialler uses the connection again 6s later with this many bytes
+	lateMark  string // " after=late-establishment": this or an earlier establishment took (with injected stalls) about as long as the broker's own 5 s timers
 
 	issued   time.Duration
 	inj0     time.Duration
@@ -147,7 +166,7 @@ func runPair(s *session, p *pair, wg *sync.WaitGroup) {
 
 // judgePair applies the rendezvous reference model to one pair.
 func judgePair(r *h.Run, kind string, p *pair, coreWindow time.Duration) {
-	ctx := fmt.Sprintf("broker=%s dir=%s order=%s", kind, p.dir(), p.order())
+	ctx := fmt.Sprintf("broker=%s%s dir=%s order=%s", kind, p.lateMark, p.dir(), p.order())
 	if p.hung {
 		r.Violate("hang", "op=Dial "+ctx, fmt.Sprintf("dial of id %d never returned", p.id))
 		return
@@ -207,7 +226,7 @@ func init() {
 				}
 			}
 			out = append(out, seeded("C06", seed, n, func(i int, sd uint64) *k.Spec {
-				s := &k.Spec{Params: P()}
+				s := &k.Spec{Seed: sd, Params: P()}
 				swarm(s, "mux_broker.go")
 				if k.H(sd, "faults", 0)%2 == 0 {
 					s.Faults = "conn.latency,conn.chunk"
@@ -493,7 +512,7 @@ func init() {
 			}
 			cases := confCases()
 			out = append(out, seeded("C07", seed, n, func(i int, sd uint64) *k.Spec {
-				s := &k.Spec{Params: cp(cases[int(k.H(sd, "conf", 0)%uint64(len(cases)))])}
+				s := &k.Spec{Seed: sd, Params: cp(cases[int(k.H(sd, "conf", 0)%uint64(len(cases)))])}
 				swarm(s, "grpc_broker.go")
 				if k.H(sd, "faults", 0)%2 == 0 {
 					s.Faults = "conn.latency,conn.chunk"
@@ -545,8 +564,11 @@ func init() {
 				}
 			}
 			out = append(out, seeded("C08", seed, n, func(i int, sd uint64) *k.Spec {
-				s := &k.Spec{Params: P("tls", []string{"none", "auto"}[k.H(sd, "tls", 0)%2])}
+				s := &k.Spec{Seed: sd, Params: P("tls", []string{"none", "auto"}[k.H(sd, "tls", 0)%2])}
 				swarm(s, "GRPCBroker.Accept,GRPCBroker.listenForKnocks,GRPCBroker.knock,GRPCBroker.muxDial,grpcmux/")
+				if s.DelayClass == "big" {
+					s.DelayClass = "long"
+				}
 				if k.H(sd, "faults", 0)%3 == 0 {
 					s.Faults = "conn.latency,conn.chunk"
 				}
@@ -567,6 +589,13 @@ func runC08(r *h.Run) {
 	}
 	s := open(r, c)
 	if s == nil {
+		return
+	}
+	if w.InjectedTotal() >= 4*time.Second {
+		// the multiplexed session itself must be established within 5 s of the
+		// handshake line: after a stall of that order there is nothing to judge
+		w.Probe("setup.abandoned-after-injected-stall")
+		s.kill()
 		return
 	}
 	gc := s.cmd.(*plugins.GRPCClient)
@@ -601,9 +630,9 @@ func runC08(r *h.Run) {
 	var keptConns []kept
 	hostConns := map[uint32]interface{ Close() error }{}
 	noisy := func() bool { return w.InjectedTotal() > 2*time.Second || w.FaultCount("conn.rst") > 0 }
+	lateMark := ""
 	for _, p := range pairs {
 		p := p
-		ctx := fmt.Sprintf("broker=grpcmux dir=%s order=%s", p.dir(), p.order())
 		p.inj0 = w.InjectedTotal()
 		// accept side
 		go k.Trap(func() {
@@ -638,6 +667,15 @@ func runC08(r *h.Run) {
 		if o.Val != nil {
 			p.answer, _ = o.Val.(string)
 		}
+		if p.gap()+p.injected >= 4500*time.Millisecond {
+			// this establishment lasted about as long as the broker's 5 s timers:
+			// from here on the history is one with a late peer (C09's subject,
+			// see the recorded finding about stale knocks)
+			lateMark = " after=late-establishment"
+			w.Probe("mux.late-establishment")
+		}
+		p.lateMark = lateMark
+		ctx := fmt.Sprintf("broker=grpcmux%s dir=%s order=%s", lateMark, p.dir(), p.order())
 		judgePair(r, "grpcmux", p, 2*time.Second)
 		if p.err == nil && !p.hung {
 			keptConns = append(keptConns, kept{p.id, p.hostDials})
